@@ -508,6 +508,13 @@ pub fn check_tracker_filter(h: &crate::gen::scenes::History) -> CaseResult {
     use crate::trk::Tracker;
     let cfg = &h.cfg;
     let mut tr = Tracker::new(cfg);
+    // a second tracker of the same kind whose configuration shares exactly one of the two Kalman
+    // weights is served by the same thread in between (another camera of the same application):
+    // every tracker filters with its own weights
+    let mut other_cfg = cfg.clone();
+    if h.ops.len() % 2 == 0 { other_cfg.wv = cfg.wv * 2.5 } else { other_cfg.wp = cfg.wp * 0.4 }
+    other_cfg.kind = cfg.kind.simple();
+    let mut other = Tracker::new(&other_cfg);
     let rf = RefFilter::new(BoxNoise { wp: cfg.wp as f64, wv: cfg.wv as f64 });
     let mut refs: std::collections::BTreeMap<u64, KState> = Default::default();
     let mut updates = 0usize;
@@ -518,6 +525,9 @@ pub fn check_tracker_filter(h: &crate::gen::scenes::History) -> CaseResult {
                 let dets = h.dets(dets, (k as i64 + 1) * 1000);
                 if cfg.kind.is_batch() && dets.is_empty() {
                     continue;
+                }
+                if !dets.is_empty() {
+                    let _ = other.predict(*scene, &dets[..1]);
                 }
                 let recs = tr.predict(*scene, &dets);
                 for (i, r) in recs.iter().enumerate() {
